@@ -410,11 +410,17 @@ class SymScalar:
     def __abs__(self): return wrap_scalar(S.absv(self.v))
     def __mod__(self, o): return wrap_scalar(S.remainder(self.v, self._u(o)))
     def __pow__(self, o): return wrap_scalar(S.powi(self.v, self._u(o)))
+    @_tensor_fallback("lt", False)
     def __lt__(self, o): return wrap_scalar(S.lt(self.v, self._u(o)))
+    @_tensor_fallback("le", False)
     def __le__(self, o): return wrap_scalar(S.le(self.v, self._u(o)))
+    @_tensor_fallback("gt", False)
     def __gt__(self, o): return wrap_scalar(S.gt(self.v, self._u(o)))
+    @_tensor_fallback("ge", False)
     def __ge__(self, o): return wrap_scalar(S.ge(self.v, self._u(o)))
+    @_tensor_fallback("eq", False)
     def __eq__(self, o): return wrap_scalar(S.eq(self.v, self._u(o)))
+    @_tensor_fallback("ne", False)
     def __ne__(self, o): return wrap_scalar(S.ne(self.v, self._u(o)))
     def __xor__(self, o): return wrap_scalar(S.bxor(S.tobit(self.v), S.tobit(self._u(o))))
     __rxor__ = __xor__
